@@ -14,7 +14,7 @@ import (
 func init() {
 	Register(&Property{
 		ID:    "C35",
-		Floor: 60,
+		Floor: 80,
 		Clauses: "HTTP/3 frame limit discipline as structure: stream.lim is written only by readFrameHeader, endFrame, discardFrame, recordBytesRead and the two constructors; inside internal/http3 the QUIC stream is read only by stream.Read, ReadByte, readVarint and discardFrame; " +
 			"Read/ReadByte/readVarint account every read through recordBytesRead (argument = the count read / 1 / the length announced by the first byte) and test its error before a successful return; " +
 			"readFrameHeader refuses while lim >= 0 and installs the second varint as lim; endFrame refuses lim != 0 and resets to -1; recordBytesRead tests lim < 0 after the subtraction on every path to a nil return and reports errH3FrameError; " +
@@ -52,7 +52,7 @@ func c35(c *Ctx) {
 			if !strings.Contains(FnName(Outer(fn)), "internal/http3.") {
 				continue
 			}
-			EachInstr_h3dns(fn, func(in ssa.Instruction) {
+			ForEachInstr(fn, func(in ssa.Instruction) {
 				if ci, ok := in.(ssa.CallInstruction); ok {
 					cn := CalleeName(ci.Common())
 					if cn == qRead || cn == qReadByte {
@@ -74,7 +74,7 @@ func c35(c *Ctx) {
 	rd := ST + "Read"
 	c.CallAfter(rd, Calls(qRead), ST+"recordBytesRead")
 	c.Count(rd, rec.ArgIs(1, "Read($r.stream,$0)#0"), 1, 1)
-	c.ErrChecked_h3dns(rd, rec, -1, RetOK())
+	c.ErrChecked(rd, rec, -1, RetOK())
 	c.Reject(rd, RetOK(), "Read($r.stream,$0)#1 == io.EOF", "$r.lim > 0")
 	c.Count(rd, c.EdgeWhere("$r.lim > 0", "Read($r.stream,$0)#1 == io.EOF"), 1, 1)
 	c.NeverAfter(rd, c.Edge("Read($r.stream,$0)#1 != nil"), RetOK(), true)
@@ -92,16 +92,16 @@ func c35(c *Ctx) {
 
 	// ---- stream.readVarint (reader half of the codec is checked below)
 	rv := ST + "readVarint"
-	c.Between(rv, Calls(qReadByte), RetOK(), rec, false)
+	c.PassBetween(rv, Calls(qReadByte), RetOK(), rec, false)
 	c.ArgFrom(rv, rec, 1, "the first byte read", IsCallTo(qReadByte))
-	c.ErrChecked_h3dns(rv, rec, -1, RetOK())
+	c.ErrChecked(rv, rec, -1, RetOK())
 	c.Count(rv, RetTerm(1, fe), 1, -1)
 	if fn := c.MustFn(rv); fn != nil {
 		for i, in := range Calls(qReadByte).F(c.P, fn) {
 			// each byte read is followed by its own error test before the value is used
 			call := in.(*ssa.Call)
 			sel := Sel{Name: fmt.Sprintf("quic ReadByte #%d", i+1), F: func(*Prog, *ssa.Function) []ssa.Instruction { return []ssa.Instruction{call} }}
-			c.ErrChecked_h3dns(rv, sel, 1, RetOK())
+			c.ErrChecked(rv, sel, 1, RetOK())
 		}
 	}
 
@@ -109,8 +109,8 @@ func c35(c *Ctx) {
 	fh := ST + "readFrameHeader"
 	c.Reject(fh, Union(Calls(rv), Calls(h3+"readVarint[internal/http3.frameType]"), Stores(lim), RetOK()), "$r.lim >= 0")
 	c.Count(fh, Stores(lim).StoredIs("readVarint($r)#0"), 1, 1)
-	c.ErrChecked_h3dns(fh, Calls(rv), 1, Union(Stores(lim), RetOK()))
-	c.ErrChecked_h3dns(fh, Calls(h3+"readVarint[internal/http3.frameType]"), 1, Union(Stores(lim), RetOK()))
+	c.ErrChecked(fh, Calls(rv), 1, Union(Stores(lim), RetOK()))
+	c.ErrChecked(fh, Calls(h3+"readVarint[internal/http3.frameType]"), 1, Union(Stores(lim), RetOK()))
 	c.Before(fh, Calls(h3+"readVarint[internal/http3.frameType]"), Calls(rv))
 	c.Count(fh, RetTerm(1, fe), 1, -1)
 	ef := ST + "endFrame"
@@ -122,7 +122,7 @@ func c35(c *Ctx) {
 	rr := ST + "recordBytesRead"
 	c.Count(rr, Stores(lim).StoredIs("($r.lim-$0)"), 1, 1)
 	c.Guard(rr, Stores(lim), "$r.lim >= 0")
-	c.Between(rr, Stores(lim), RetOK(), c.Edge("$r.lim >= 0"), false)
+	c.PassBetween(rr, Stores(lim), RetOK(), c.Edge("$r.lim >= 0"), false)
 	c.Count(rr, Stores(h3+"connectionError.code").StoredIs(fe), 1, 1)
 	c.NeverAfter(rr, Stores(h3+"connectionError.code"), RetOK(), false)
 
@@ -136,12 +136,12 @@ func c35(c *Ctx) {
 	c.Count(du, Calls(ST+"discardFrame"), 1, 1)
 	df := ST + "discardFrame"
 	c.Before(df, Stores(lim).StoredIs("-1"), RetOK())
-	c.ErrChecked_h3dns(df, Calls(qReadByte), 1, Union(Stores(lim), RetOK()))
+	c.ErrChecked(df, Calls(qReadByte), 1, Union(Stores(lim), RetOK()))
 	c.Count(df, Stores(h3+"streamError.code").StoredIs(fe), 1, 1)
 	if fn := c.MustFn(df); fn != nil {
 		// the loop reading bytes is bounded by lim: some loop test compares a counter with $r.lim
 		found := false
-		EachInstr_h3dns(fn, func(in ssa.Instruction) {
+		ForEachInstr(fn, func(in ssa.Instruction) {
 			if ifi, ok := in.(*ssa.If); ok {
 				a := CondAtom(ifi.Cond)
 				if a.Kind == LE && a.L.Coef["$r.lim"] != 0 && len(a.L.Coef) == 2 {
@@ -159,8 +159,8 @@ func c35(c *Ctx) {
 	c.Guard(br, stRead, "$r.st.lim >= 0")
 	c.Guard(br, Indexing("$0"), "len($0) > $r.st.lim")
 	c.Count(br, stRead.ArgIs(1, "φ($0|$0[:$r.st.lim])"), 1, 1)
-	c.Between(br, Calls(fh), stRead, Union(c.Edge(fmt.Sprintf("readFrameHeader($r.st)#0 == %d", fData)), Calls(du)), false)
-	c.ErrChecked_h3dns(br, Calls(du), -1, Union(stRead, Calls(fh)))
+	c.PassBetween(br, Calls(fh), stRead, Union(c.Edge(fmt.Sprintf("readFrameHeader($r.st)#0 == %d", fData)), Calls(du)), false)
+	c.ErrChecked(br, Calls(du), -1, Union(stRead, Calls(fh)))
 	c.Guard(br, Calls(ef), "$r.st.lim == 0")
 	c.Guard(br, Calls(fh), "$r.st.lim < 0")
 	c.Reject(br, Union(stRead, Calls(fh), Calls(ef)), "$r.err != nil")
@@ -171,13 +171,13 @@ func c35(c *Ctx) {
 
 	// ---- settings
 	rs := ST + "readSettings"
-	cb := CallsParam(0)
+	cb := CallsOfParam(0)
 	fSettings, _ := c.P.ConstInt(h3 + "frameTypeSettings")
 	c.Reject(rs, Union(Calls(rv), cb, Calls(ef)), fmt.Sprintf("readFrameHeader($r)#0 != %d", fSettings))
 	c.Reject(rs, Union(Calls(rv), cb, Calls(ef)), "readFrameHeader($r)#1 != nil")
 	c.Guard(rs, Calls(rv), "$r.lim > 0")
-	c.ErrChecked_h3dns(rs, Calls(rv), 1, cb)
-	c.Between(rs, c.Edge("$r.lim <= 0"), Returns(), Calls(ef), true)
+	c.ErrChecked(rs, Calls(rv), 1, cb)
+	c.PassBetween(rs, c.Edge("$r.lim <= 0"), Returns(), Calls(ef), true)
 	if fn := c.MustFn(rs); fn != nil {
 		if sites := cb.F(c.P, fn); len(sites) == 1 {
 			id := Term(sites[0].(ssa.CallInstruction).Common().Args[0])
@@ -227,7 +227,7 @@ func varintTable(c *Ctx, wr, rd string) {
 	// group WriteByte calls by block
 	byBlock := map[*ssa.BasicBlock][]*ssa.Call{}
 	var order []*ssa.BasicBlock
-	EachInstr_h3dns(wf, func(in ssa.Instruction) {
+	ForEachInstr(wf, func(in ssa.Instruction) {
 		if call, ok := in.(*ssa.Call); ok && CalleeName(&call.Call) == qWriteByte {
 			if byBlock[call.Block()] == nil {
 				order = append(order, call.Block())
@@ -258,12 +258,12 @@ func varintTable(c *Ctx, wr, rd string) {
 			shift := int64(8 * (n - 1 - i))
 			arg := call.Call.Args[1]
 			tag := int64(0)
-			v := stripConv_h3dns(arg)
+			v := stripConv(arg)
 			if bo, ok := v.(*ssa.BinOp); ok && bo.Op == token.OR {
-				k, isK := stripConv_h3dns(bo.X).(*ssa.Const)
+				k, isK := stripConv(bo.X).(*ssa.Const)
 				rest := bo.Y
 				if !isK {
-					k, isK = stripConv_h3dns(bo.Y).(*ssa.Const)
+					k, isK = stripConv(bo.Y).(*ssa.Const)
 					rest = bo.X
 				}
 				if !isK {
@@ -271,17 +271,17 @@ func varintTable(c *Ctx, wr, rd string) {
 					break
 				}
 				tag, _ = IntOf64(k)
-				v = stripConv_h3dns(rest)
+				v = stripConv(rest)
 			}
 			got := int64(0)
 			if bo, ok := v.(*ssa.BinOp); ok && bo.Op == token.SHR {
-				k, isK := stripConv_h3dns(bo.Y).(*ssa.Const)
+				k, isK := stripConv(bo.Y).(*ssa.Const)
 				if !isK {
 					bad = fmt.Sprintf("byte %d: non-constant shift", i)
 					break
 				}
 				got, _ = IntOf64(k)
-				v = stripConv_h3dns(bo.X)
+				v = stripConv(bo.X)
 			}
 			if Term(v) != "$0" || got != shift {
 				bad = fmt.Sprintf("byte %d is `%s`, want $0>>%d", i, Term(arg), shift)
@@ -306,12 +306,12 @@ func varintTable(c *Ctx, wr, rd string) {
 	c.Guard(wr, Panics(), fmt.Sprintf("$0 > %d", (int64(1)<<62)-1))
 	// reader
 	var mask, lenShift, accShift int64 = -1, -1, -1
-	EachInstr_h3dns(rf, func(in ssa.Instruction) {
+	ForEachInstr(rf, func(in ssa.Instruction) {
 		bo, ok := in.(*ssa.BinOp)
 		if !ok {
 			return
 		}
-		k, isK := stripConv_h3dns(bo.Y).(*ssa.Const)
+		k, isK := stripConv(bo.Y).(*ssa.Const)
 		if !isK {
 			return
 		}
@@ -322,7 +322,7 @@ func varintTable(c *Ctx, wr, rd string) {
 		case token.SHR:
 			lenShift = n
 		case token.SHL:
-			if _, one := stripConv_h3dns(bo.X).(*ssa.Const); !one {
+			if _, one := stripConv(bo.X).(*ssa.Const); !one {
 				accShift = n
 			}
 		}
@@ -333,7 +333,7 @@ func varintTable(c *Ctx, wr, rd string) {
 	if recs := Calls("(*"+h3+"stream).recordBytesRead").F(c.P, rf); len(recs) == 1 {
 		lenT := Term(recs[0].(ssa.CallInstruction).Common().Args[1])
 		found := false
-		EachInstr_h3dns(rf, func(in ssa.Instruction) {
+		ForEachInstr(rf, func(in ssa.Instruction) {
 			if ifi, ok := in.(*ssa.If); ok {
 				a := CondAtom(ifi.Cond)
 				if a.Kind == LE && a.L.Coef[lenT] != 0 && len(a.L.Coef) == 2 {
@@ -347,7 +347,7 @@ func varintTable(c *Ctx, wr, rd string) {
 	}
 }
 
-func stripConv_h3dns(v ssa.Value) ssa.Value {
+func stripConv(v ssa.Value) ssa.Value {
 	for {
 		switch x := v.(type) {
 		case *ssa.Convert:
